@@ -502,6 +502,10 @@ def r18_15(run, model):
 
 
 def run(run, model):
+    # a derived to_json / to_string is an inherent method like any other: a second definition of the name is reported, never merged
+    # silently with the generated one (shared with C17 R17.10)
+    from rules import c17 as _c17d
+    run.try_rule(_c17d.r17_10, model)
     run.try_rule(r18_1, model)
     run.try_rule(r18_2, model)
     run.try_rule(r18_3, model)
